@@ -1076,11 +1076,13 @@ Definition rd_es_fields : parser (N * N * N * list N * N) :=
   pret (esid, fl, dep, url, ocr).
 
 (* DecodeEsdsSR: versionAndFlags, DecodeESDescriptor (descSize is not used by the Go code), sr.AccError().
-   Fuel: nesting depth and loop counts are bounded by half the number of bytes the reader can reach; the decoder may
-   read beyond the box (a descriptor can announce more than the box holds), so the fuel is the announced box size plus
-   65536 -- enough for every slice below 128 KiB, the same in a second decode of the re-encoded box (the header is
-   the same), and OutOfFuel is a separate outcome that the theorems exclude. *)
-Definition dec_esds (h : hdr) : parser (leaf * rsvT) :=
+   Fuel: nesting depth and loop counts are bounded by half the number of bytes the reader can reach.  dec_esds_in is
+   the run on the reader `psr` over the payload of the box (see dec_esds below; before repo commit 27ea537 it ran on
+   the caller's reader and a descriptor announcing more than the box holds was completed with the bytes behind the
+   box, finding C03-F7).  The fuel is the announced box size plus 65536 -- more than the payload can need, enough for
+   every slice below 128 KiB on a direct call, the same in a second decode of the re-encoded box (the header is the
+   same), and OutOfFuel is a separate outcome that the theorems exclude. *)
+Definition dec_esds_in (h : hdr) : parser (leaf * rsvT) :=
   pdo vf <- rd 4 ;;
   fun bs =>
     let F := S (N.to_nat (h_size h + 65536)) in
@@ -1125,6 +1127,20 @@ Definition dec_esds (h : hdr) : parser (leaf * rsvT) :=
             end
         | _ => Err
         end
+    end.
+
+(* DecodeEsdsSR since repo commit 27ea537: payload := sr.ReadBytes(hdr.payloadLen()); the box is decoded with a reader
+   of its own over the payload (psr), as the reader path DecodeEsds always did, so no descriptor is completed with the
+   bytes that follow the box; sr.SetPos(initPos + psr.GetPos()): the caller's reader ends behind the ES descriptor. *)
+Definition dec_esds (h : hdr) : parser (leaf * rsvT) :=
+  fun bs =>
+    match rdB (payload_len h) bs with
+    | Ok (data, rest) =>
+        match dec_esds_in h data with
+        | Ok (x, extra) => Ok (x, extra ++ rest)
+        | Err => Err | Panic => Panic | OutOfFuel => OutOfFuel
+        end
+    | Err => Err | Panic => Panic | OutOfFuel => OutOfFuel
     end.
 
 (* ---------------------------------------------------------------- uuid (mp4/uuid.go) *)
